@@ -1,6 +1,9 @@
 package c07
 
-import "fmt"
+import (
+	"fmt"
+	"strings"
+)
 
 // Static analysis of a program: for every exit site (return-from, return, go,
 // an error source) the lexical target and the chain of (form kind, position)
@@ -64,6 +67,10 @@ type analysis struct {
 	nMutex int
 	sites  int
 	forms  map[string]int
+	// outside: the program has an exit that leaves the cleanup forms of an
+	// unwind-protect or the value form of a return-from; the property does
+	// not speak about those positions
+	outside string
 }
 
 func (a *analysis) add(f string) {
@@ -81,6 +88,10 @@ func (a *analysis) exitFeats(k string, path []pcell, d int, toName string) {
 		d = -1
 	}
 	for i := len(path) - 1; d < i; i-- {
+		switch path[i].cell {
+		case "unwind-protect.cleanup", "return-from.value", "return.value":
+			a.outside = "exit out of " + path[i].cell
+		}
 		a.add(fmt.Sprintf("exit=%s through=%s", k, path[i].cell))
 	}
 	a.add(fmt.Sprintf("exit=%s to=%s", k, toName))
@@ -278,25 +289,43 @@ func (a *analysis) walk(f *sx, path []pcell, c actx) {
 		for _, x := range args[1:] {
 			a.sub(x, h+".body", path, cc)
 		}
-	case "do":
+	case "multiple-value-bind":
+		a.sub(args[1], h+".values", path, c)
+		a.walkBody(h, args[2:], path, c)
+	case "do", "do*":
 		cc := c.withBlock("nil", depth)
 		for _, b := range args[0].List {
 			if b.IsL {
 				if 1 < len(b.List) {
-					a.sub(b.List[1], "do.init", path, cc)
+					a.sub(b.List[1], h+".init", path, cc)
 				}
 				if 2 < len(b.List) {
-					a.sub(b.List[2], "do.step", path, cc)
+					a.sub(b.List[2], h+".step", path, cc)
 				}
 			}
 		}
 		end := args[1].List
-		a.sub(end[0], "do.test", path, cc)
+		a.sub(end[0], h+".test", path, cc)
 		for _, x := range end[1:] {
-			a.sub(x, "do.result", path, cc)
+			a.sub(x, h+".result", path, cc)
 		}
 		for _, x := range args[2:] {
-			a.sub(x, "do.body", path, cc)
+			a.sub(x, h+".body", path, cc)
+		}
+	case "lambda":
+		// a closure that is not called on the spot: its body runs later, when
+		// the position the lambda expression sits in has long completed, so
+		// that cell is replaced by closure.body; the enclosing cells are still
+		// active when the closure is called inside their extent
+		if depth == 0 {
+			return
+		}
+		p2 := append(path[:depth:depth], pcell{cell: "closure.body"})
+		if last := path[depth-1].cell; last == "call.arg" || strings.HasSuffix(last, ".init") {
+			p2 = append(path[:depth-1:depth-1], pcell{cell: "closure.body"})
+		}
+		for _, x := range args[1:] {
+			a.walk(x, p2, c)
 		}
 	case "funcall", "mapcar":
 		for i, x := range args {
